@@ -17,7 +17,6 @@ import (
 	"encoding/hex"
 	"encoding/json"
 	"fmt"
-	"io"
 	"os"
 	"os/exec"
 	"path/filepath"
@@ -165,6 +164,7 @@ type wmsg struct {
 	Sigs    []string                 `json:"sigs,omitempty"`
 	Counts  map[string]int           `json:"counts,omitempty"`
 	Capped  string                   `json:"capped,omitempty"`
+	Next    int                      `json:"next,omitempty"` // stats snapshot: the program index this incarnation runs next
 	Samples []map[string]interface{} `json:"samples,omitempty"`
 }
 
@@ -176,18 +176,30 @@ func replayOf(l *layer, name string, code []byte, c config) map[string]interface
 	return m
 }
 
+var memdbg = os.Getenv("C20_MEMDBG") != ""
+
 func workerMain(spec string) {
 	parts := strings.Split(spec, "/")
 	shard, _ := strconv.Atoi(parts[0])
 	nw, _ := strconv.Atoi(parts[1])
 	start, _ := strconv.Atoi(os.Getenv("C20_START"))
+	startCfg, _ := strconv.Atoi(os.Getenv("C20_STARTCFG")) // with C20_ONECASE: the configuration to run
+	oneCase := os.Getenv("C20_ONECASE") != ""              // run exactly the case (start, startCfg): crash confirmation
+	skip := map[[2]int]bool{}                              // cases judged separately (after a worker death)
+	for _, s := range strings.Split(os.Getenv("C20_SKIP"), ",") {
+		var g, c int
+		if n, _ := fmt.Sscanf(s, "%d:%d", &g, &c); n == 2 {
+			skip[[2]int{g, c}] = true
+		}
+	}
 	deadlineNs, _ := strconv.ParseInt(os.Getenv("C20_DEADLINE"), 10, 64)
 	deadline := time.Unix(0, deadlineNs)
 	thorough := os.Getenv("C20_TIER") == "thorough"
 	// address-space limit: a runaway allocation must kill this worker, not the machine
-	lim := uint64(6 << 30)
+	lim := uint64(8 << 30)
 	syscall.Setrlimit(syscall.RLIMIT_AS, &syscall.Rlimit{Cur: lim, Max: lim})
 	debug.SetGCPercent(1600)
+	debug.SetMemoryLimit(2 << 30) // soft: collect harder instead of growing towards the hard limit
 	var slot []byte
 	if p := os.Getenv("C20_SLOTS"); p != "" {
 		f, err := os.OpenFile(p, os.O_RDWR, 0644)
@@ -216,6 +228,7 @@ func workerMain(spec string) {
 	var samples []map[string]interface{}
 	capped := ""
 	base := 0
+	lastSnap := time.Now()
 outer:
 	for li := range layers {
 		l := &layers[li]
@@ -227,6 +240,17 @@ outer:
 			if shardOf(gi, nw) != shard || gi < start {
 				continue
 			}
+			if oneCase && gi != start {
+				break outer
+			}
+			if time.Since(lastSnap) > 5*time.Second {
+				// cumulative statistics of this incarnation, at a program boundary: if the process dies later the
+				// supervisor still has what was covered up to here
+				lastSnap = time.Now()
+				ls.CPU = cpuNow() - t0
+				enc.Encode(wmsg{T: "stats", Stats: stats, Sigs: sigList(sigs), Counts: counts, Samples: samples, Next: gi})
+				out.Flush()
+			}
 			if time.Now().After(deadline) {
 				capped = fmt.Sprintf("deadline in layer %s at program %d of %d", l.name, i, l.n)
 				ls.Complete = false
@@ -237,11 +261,16 @@ outer:
 				break outer
 			}
 			name, code := l.gen(i)
-			ls.Programs++
+			if !oneCase { // the single case of a confirmation run belongs to a program the restarted worker counts
+				ls.Programs++
+			}
 			var refSelf *state.StateDB
 			var rootSelf common.Hash
 			for ci, c := range l.configs(i) {
-				if slot != nil {
+				if oneCase && ci != startCfg || !oneCase && skip[[2]int{gi, ci}] {
+					continue
+				}
+				if slot != nil && !oneCase {
 					binary.LittleEndian.PutUint64(slot[0:], uint64(gi)+1)
 					binary.LittleEndian.PutUint64(slot[8:], uint64(ci))
 				}
@@ -255,6 +284,11 @@ outer:
 				}
 				fs, cls, a, nruns := evaluate(w, ref, preRoot, code, c)
 				ls.Cases++
+				if memdbg && ls.Cases%20000 == 0 {
+					var ms runtime.MemStats
+					runtime.ReadMemStats(&ms)
+					fmt.Fprintf(os.Stderr, "MEM layer=%s cases=%d heapAlloc=%dMB heapSys=%dMB nextGC=%dMB numGC=%d sys=%dMB\n", l.name, ls.Cases, ms.HeapAlloc>>20, ms.HeapSys>>20, ms.NextGC>>20, ms.NumGC, ms.Sys>>20)
+				}
 				ls.Runs += nruns
 				ls.Steps += a.steps
 				ls.Frames += a.frames
@@ -296,16 +330,20 @@ outer:
 		base += l.n
 		ls.CPU = cpuNow() - t0
 	}
-	if slot != nil {
+	if slot != nil && !oneCase {
 		binary.LittleEndian.PutUint64(slot[0:], 0)
 	}
+	enc.Encode(wmsg{T: "done", Stats: stats, Sigs: sigList(sigs), Counts: counts, Capped: capped, Samples: samples})
+	out.Flush()
+}
+
+func sigList(sigs map[string]bool) []string {
 	var sl []string
 	for s := range sigs {
 		sl = append(sl, s)
 	}
 	sort.Strings(sl)
-	enc.Encode(wmsg{T: "done", Stats: stats, Sigs: sl, Counts: counts, Capped: capped, Samples: samples})
-	out.Flush()
+	return sl
 }
 
 // shardOf assigns a program (by its global index) to a worker. A multiplicative hash instead of the plain
@@ -346,11 +384,16 @@ func signature(cls string, a *result) string {
 // ---- supervisor ----
 
 type workerState struct {
-	shard   int
-	start   int
-	crashes int
-	done    *wmsg
-	viols   []wmsg
+	shard    int
+	start    int
+	startCfg int
+	skip     []string // "gi:ci" cases the restarted worker must not run again
+	crashes  int
+	spurious int     // worker deaths that did not reproduce when the case was run alone
+	done     *wmsg   // final message of the incarnation that finished
+	last     *wmsg   // latest cumulative statistics of the running incarnation
+	dead     []*wmsg // latest statistics of incarnations that died
+	viols    []wmsg
 }
 
 func crashClass(stderrTail string, ws syscall.WaitStatus) string {
@@ -466,51 +509,82 @@ func main() {
 		replay    map[string]interface{}
 	}
 	var crashes []crash
+	var spurious []string
 	gaveUp := false
+	// runWorker starts one worker incarnation (or, with one=true, a process that runs exactly the case
+	// (ws.start, ws.startCfg)) and collects its messages.
+	runWorker := func(ws *workerState, one bool) (*tailBuf, error) {
+		cmd := exec.Command(self)
+		cmd.Env = append(os.Environ(), fmt.Sprintf("C20_WORKER=%d/%d", ws.shard, nw), fmt.Sprintf("C20_START=%d", ws.start), fmt.Sprintf("C20_STARTCFG=%d", ws.startCfg),
+			fmt.Sprintf("C20_DEADLINE=%d", deadline.UnixNano()), "C20_TIER="+r.Tier, "C20_SLOTS="+slots, "GOMAXPROCS=2", "C20_SKIP="+strings.Join(ws.skip, ","))
+		if one {
+			cmd.Env = append(cmd.Env, "C20_ONECASE=1", fmt.Sprintf("C20_DEADLINE=%d", time.Now().Add(time.Hour).UnixNano()))
+		}
+		stdout, _ := cmd.StdoutPipe()
+		tail := &tailBuf{}
+		cmd.Stderr = tail
+		if err := cmd.Start(); err != nil {
+			vk.Fatalf("start worker: %v", err)
+		}
+		rd := bufio.NewReaderSize(stdout, 1<<20)
+		for {
+			line, err := rd.ReadBytes('\n')
+			if len(line) > 0 {
+				var m wmsg
+				if json.Unmarshal(line, &m) == nil {
+					mu.Lock()
+					switch m.T {
+					case "viol":
+						ws.viols = append(ws.viols, m)
+					case "stats":
+						if !one {
+							mm := m
+							ws.last = &mm
+						}
+					case "done":
+						mm := m
+						if one {
+							ws.dead = append(ws.dead, &mm) // the single case counts like a finished incarnation
+						} else {
+							ws.done, ws.last = &mm, nil
+						}
+					}
+					mu.Unlock()
+				}
+			}
+			if err != nil {
+				break
+			}
+		}
+		return tail, cmd.Wait()
+	}
 	var wg sync.WaitGroup
 	for s := 0; s < nw; s++ {
 		states[s] = &workerState{shard: s}
 		wg.Add(1)
 		go func(ws *workerState) {
 			defer wg.Done()
+			outside := 0
 			for {
-				cmd := exec.Command(self)
-				cmd.Env = append(os.Environ(), fmt.Sprintf("C20_WORKER=%d/%d", ws.shard, nw), fmt.Sprintf("C20_START=%d", ws.start),
-					fmt.Sprintf("C20_DEADLINE=%d", deadline.UnixNano()), "C20_TIER="+r.Tier, "C20_SLOTS="+slots, "GOMAXPROCS=2")
-				stdout, _ := cmd.StdoutPipe()
-				tail := &tailBuf{}
-				cmd.Stderr = tail
-				if err := cmd.Start(); err != nil {
-					vk.Fatalf("start worker: %v", err)
+				// the slot must not still name the last case of a previous incarnation
+				if f, err := os.OpenFile(slots, os.O_WRONLY, 0644); err == nil {
+					f.WriteAt(make([]byte, 16), int64(16*ws.shard))
+					f.Close()
 				}
-				rd := bufio.NewReaderSize(stdout, 1<<20)
-				for {
-					line, err := rd.ReadBytes('\n')
-					if len(line) > 0 {
-						var m wmsg
-						if json.Unmarshal(line, &m) == nil {
-							mu.Lock()
-							switch m.T {
-							case "viol":
-								ws.viols = append(ws.viols, m)
-							case "done":
-								mm := m
-								ws.done = &mm
-							}
-							mu.Unlock()
-						}
-					}
-					if err != nil {
-						if err != io.EOF {
-							break
-						}
-						break
-					}
-				}
-				werr := cmd.Wait()
+				tail, werr := runWorker(ws, false)
 				if werr == nil && ws.done != nil {
 					return
 				}
+				// The incarnation died. What it covered up to its last statistics snapshot is kept; the next
+				// incarnation continues from that snapshot (re-doing at most a few seconds of work).
+				resume := ws.start
+				mu.Lock()
+				if ws.last != nil {
+					ws.dead = append(ws.dead, ws.last)
+					resume = ws.last.Next
+					ws.last = nil
+				}
+				mu.Unlock()
 				// the worker died: which case was it running?
 				data, _ := os.ReadFile(slots)
 				gi1 := binary.LittleEndian.Uint64(data[16*ws.shard:])
@@ -520,19 +594,54 @@ func main() {
 					wstat, _ = ee.Sys().(syscall.WaitStatus)
 				}
 				cls := crashClass(tail.String(), wstat)
-				if gi1 == 0 || cls == "harness-error" {
-					vk.Fatalf("worker %d died outside a case (%s): %s", ws.shard, cls, tail.String())
+				if cls == "harness-error" {
+					vk.Fatalf("worker %d: %s", ws.shard, tail.String())
+				}
+				if gi1 == 0 {
+					// died outside a case (while building its world or between cases): nothing to attribute it to
+					mu.Lock()
+					ws.spurious++
+					outside++
+					spurious = append(spurious, fmt.Sprintf("worker %d died outside a case (%s): %s", ws.shard, cls, strings.Split(tail.String(), "\n")[0]))
+					mu.Unlock()
+					if outside >= 5 {
+						vk.Fatalf("worker %d died outside a case %d times (%s): %s", ws.shard, outside, cls, tail.String())
+					}
+					ws.start, ws.startCfg, ws.done = resume, 0, nil
+					continue
 				}
 				gi := int(gi1 - 1)
 				l, i := locate(gi)
 				name, code := l.gen(i)
 				cfgs := l.configs(i)
 				c := cfgs[ci%len(cfgs)]
+				// Believe the death only if the case also kills a fresh process that runs nothing else (twice): a
+				// worker can also die because the machine as a whole ran out of memory.
+				ws.start, ws.startCfg, ws.done = gi, ci, nil
+				confirmed := true
+				var ctail *tailBuf
+				for attempt := 0; attempt < 2 && confirmed; attempt++ {
+					var cerr error
+					ctail, cerr = runWorker(ws, true)
+					if cerr == nil {
+						confirmed = false
+					}
+				}
 				mu.Lock()
-				crashes = append(crashes, crash{"process-crash:" + cls,
-					fmt.Sprintf("the process executing the program died (%s): %s", cls, strings.Split(tail.String(), "\n")[0]), gi, ci, replayOf(l, name, code, c)})
-				ws.crashes++
-				tooMany := ws.crashes >= 40
+				if confirmed {
+					var cstat syscall.WaitStatus
+					ccls := crashClass(ctail.String(), cstat)
+					if ccls == "exit-0" {
+						ccls = cls
+					}
+					crashes = append(crashes, crash{"process-crash:" + ccls,
+						fmt.Sprintf("the process executing the program died (%s), also when the case is run alone in a fresh process: %s", ccls, strings.Split(ctail.String(), "\n")[0]), gi, ci, replayOf(l, name, code, c)})
+					ws.crashes++
+				} else {
+					ws.spurious++
+					spurious = append(spurious, fmt.Sprintf("worker %d died (%s) while running program %d cfg %d (%s [%s]); the case runs to completion alone, so the death is attributed to the environment", ws.shard, cls, gi, ci, name, c))
+				}
+				tooMany := ws.crashes+ws.spurious >= 40
 				if tooMany {
 					gaveUp = true
 				}
@@ -540,9 +649,9 @@ func main() {
 				if tooMany {
 					return
 				}
-				// continue behind the crashing program (its remaining configurations are skipped; the crash is reported)
-				ws.start = gi + 1
-				ws.done = nil
+				// the case itself has been judged by the confirmation run, or is reported as a crash
+				ws.skip = append(ws.skip, fmt.Sprintf("%d:%d", gi, ci))
+				ws.start, ws.startCfg = resume, 0
 			}
 		}(states[s])
 	}
@@ -567,14 +676,50 @@ func main() {
 		for _, m := range ws.viols {
 			all = append(all, v{m.Key, m.What, m.Prog, m.Cfg, m.Replay})
 		}
+		parts := append([]*wmsg{}, ws.dead...)
+		if ws.done != nil {
+			parts = append(parts, ws.done)
+		} else if ws.last != nil {
+			parts = append(parts, ws.last)
+		}
+		for _, part := range parts {
+			for k, n := range part.Counts {
+				total[k] += n
+			}
+			for _, s := range part.Sigs {
+				sigs[s] = true
+			}
+			for _, ls := range part.Stats {
+				m, ok := merged[ls.Name]
+				if !ok {
+					m = &layerStats{Name: ls.Name, What: ls.What, Outcomes: map[string]int{}, Complete: true, Total: ls.Total}
+					merged[ls.Name] = m
+					order = append(order, ls.Name)
+				}
+				m.Programs += ls.Programs
+				m.Cases += ls.Cases
+				m.Runs += ls.Runs
+				m.Steps += ls.Steps
+				m.Frames += ls.Frames
+				m.Reverts += ls.Reverts
+				m.CPU += ls.CPU
+				m.DBErrs += ls.DBErrs
+				for k, n := range ls.Ghosts {
+					if m.Ghosts == nil {
+						m.Ghosts = map[string]int{}
+					}
+					m.Ghosts[k] += n
+				}
+				if ls.MaxDepth > m.MaxDepth {
+					m.MaxDepth = ls.MaxDepth
+				}
+				for k, n := range ls.Outcomes {
+					m.Outcomes[k] += n
+				}
+			}
+		}
 		if ws.done == nil {
 			continue
-		}
-		for k, n := range ws.done.Counts {
-			total[k] += n
-		}
-		for _, s := range ws.done.Sigs {
-			sigs[s] = true
 		}
 		if ws.shard == 0 {
 			seen := map[string]bool{}
@@ -589,44 +734,17 @@ func main() {
 		if ws.done.Capped != "" {
 			r.Capped(fmt.Sprintf("worker %d/%d: %s", ws.shard, nw, ws.done.Capped))
 		}
-		for _, ls := range ws.done.Stats {
-			m, ok := merged[ls.Name]
-			if !ok {
-				m = &layerStats{Name: ls.Name, What: ls.What, Outcomes: map[string]int{}, Complete: true, Total: ls.Total}
-				merged[ls.Name] = m
-				order = append(order, ls.Name)
-			}
-			m.Programs += ls.Programs
-			m.Cases += ls.Cases
-			m.Runs += ls.Runs
-			m.Steps += ls.Steps
-			m.Frames += ls.Frames
-			m.Reverts += ls.Reverts
-			m.CPU += ls.CPU
-			m.DBErrs += ls.DBErrs
-			for k, n := range ls.Ghosts {
-				if m.Ghosts == nil {
-					m.Ghosts = map[string]int{}
-				}
-				m.Ghosts[k] += n
-			}
-			if ls.MaxDepth > m.MaxDepth {
-				m.MaxDepth = ls.MaxDepth
-			}
-			for k, n := range ls.Outcomes {
-				m.Outcomes[k] += n
-			}
-			if !ls.Complete {
-				m.Complete = false
-			}
-		}
 	}
 	if os.Getenv("C20_ONLY") != "" {
 		r.Capped("C20_ONLY=" + os.Getenv("C20_ONLY") + ": only some layers were run (development knob)")
 	}
 	if gaveUp {
-		r.Capped("a worker crashed 40 times and was not restarted again; its shard is incomplete")
+		r.Capped("a worker died 40 times and was not restarted again; its shard is incomplete")
 	}
+	for _, s := range spurious {
+		r.Note("%s", s)
+	}
+	r.Set("worker_deaths_not_reproduced_in_isolation", len(spurious))
 	sort.SliceStable(all, func(i, j int) bool {
 		if all[i].prog != all[j].prog {
 			return all[i].prog < all[j].prog
@@ -634,7 +752,13 @@ func main() {
 		return all[i].cfg < all[j].cfg
 	})
 	reported := map[string]int{}
+	dup := map[string]bool{}
 	for _, x := range all {
+		id := fmt.Sprintf("%s|%d|%d", x.key, x.prog, x.cfg)
+		if dup[id] { // a restarted worker re-does the few seconds before its predecessor's death
+			continue
+		}
+		dup[id] = true
 		r.Violation(x.key, x.what, x.replay)
 		reported[x.key]++
 	}
